@@ -66,6 +66,9 @@ def classify(c):
 def body(c):
     nontrivial, key, labels, tags = classify(c)
     res = Res(nontrivial=nontrivial, key=key, labels=labels, tags=tags)
+    if c.get("fasta"):
+        res.labels = res.labels + ("fasta_file", "wrap=%d" % c["fasta"]["wrap"], "final_newline" if c["fasta"]["final_newline"] else "no_final_newline")
+        res.key = key + (str(sorted(c["fasta"].items())),)
     if c.get("f32default"):
         res.labels = res.labels + ("default_dtype_float32",)
         res.key = key + ("f32default",)
@@ -234,6 +237,14 @@ def indices_body(c):
 
 
 @st.composite
+def fasta_case(draw):
+    """the alignment is read from a FASTA file (wrapped lines, blank lines, CRLF, no final line terminator)"""
+    c = draw(phylo.like_case(nmax=6))
+    c["fasta"] = {"wrap": draw(st.sampled_from([0, 1, 2, 3, 5, 7])), "blank": draw(st.booleans()), "crlf": draw(st.booleans()), "final_newline": draw(st.booleans())}
+    return c
+
+
+@st.composite
 def api_sequence_case(draw):
     """several analyses in one process whose data types are created with the class constructors (not from JSON), the way
     a program using the package as a library does: nothing may leak from one object to the next"""
@@ -309,6 +320,7 @@ def subchecks(tier):
     return [
         Sub("random", body, strategy=phylo.like_case, quick=1500, thorough=80000, pretags=pretags),
         Sub("all_topologies", body, enumerate=_topology_cases, expand=expand_topology_case, exhaustive=(tier == "thorough"), pretags=pretags),
+        Sub("fasta_file", body, strategy=fasta_case, quick=150, thorough=6000, pretags=pretags),
         Sub("api_sequence", api_sequence_body, strategy=api_sequence_case, quick=150, thorough=6000, pretags=lambda c: dict(pretags(c["cases"][0]), api=True)),
         Sub("large", body, strategy=large_case, quick=150, thorough=10000, pretags=pretags),
         Sub("shared", shared_body, strategy=shared_case, quick=200, thorough=8000, pretags=pretags),
